@@ -2,6 +2,7 @@ package verifsim
 
 import (
 	"encoding/base64"
+	"encoding/json"
 	"fmt"
 	"strconv"
 	"strings"
@@ -329,6 +330,109 @@ func runC17(rc *RunCtx) {
 			script = []forced{{op: mut, k: k, nd: -1, fault: fk}, {op: mut, k: k, nd: -1}, {op: 1, k: k}, {op: 7, k: k}, {op: 1, k: k},
 				{op: 9, k: k, nd: -1}, {op: 9, k: k, nd: 1}, {op: 99}}
 			note("script on %s: %s failing at storage op %d, retry, rotate, archive round trip", k.name, map[int]string{7: "rotate", 9: "config"}[mut], fk)
+		case op == 4 && k.canEncrypt && k.aad && !k.convergent && fz == nil: // batch encrypt / decrypt, items with and without associated data
+			var items []any // (the framework wants []any of maps, as JSON decoding yields)
+			var bc []*trCT
+			for j := 0; j < 2+tp.Pick(3); j++ {
+				pt := newPT()
+				it := map[string]any{"plaintext": b64(pt)}
+				c := &trCT{key: k, pt: pt}
+				if k.derived {
+					c.ctx = []byte(fmt.Sprintf("ctx-%d", tp.Pick(3)))
+					it["context"] = b64(c.ctx)
+				}
+				if tp.Pick(2) == 0 {
+					c.aad = []byte(fmt.Sprintf("aad-%d-%d", j, tp.Pick(3)))
+					it["associated_data"] = b64(c.aad)
+				}
+				items = append(items, it)
+				bc = append(bc, c)
+			}
+			resp, err, _ := do(Req{Op: logical.UpdateOperation, Path: "transit/encrypt/" + k.name, Token: h.Root, Data: map[string]any{"batch_input": items}}, 0)
+			if err != nil || resp == nil {
+				note("batch encrypt %s -> %v", k.name, err)
+				s.Probe("encrypt_refused")
+				continue
+			}
+			var results []map[string]any
+			switch br := resp.Data["batch_results"].(type) {
+			case []map[string]any:
+				results = br
+			case []any:
+				for _, x := range br {
+					if m, ok := x.(map[string]any); ok {
+						results = append(results, m)
+					}
+				}
+			default:
+				// typed slice of the backend: go through JSON
+				if b, e := json.Marshal(br); e == nil {
+					json.Unmarshal(b, &results)
+				}
+			}
+			if len(results) != len(bc) {
+				note("batch encrypt %s -> %d results for %d items", k.name, len(results), len(bc))
+				continue
+			}
+			note("batch encrypt %s: %d items", k.name, len(bc))
+			s.Probe("batch_encrypt")
+			for j, c := range bc {
+				c.ct = fmt.Sprint(results[j]["ciphertext"])
+				c.version = ctVersion(c.ct)
+				if c.version != k.latest {
+					viol("encrypt-wrong-version", map[string]any{"key_type": k.typ}, "batch encrypt with %s used version %d, latest is %d", k.name, c.version, k.latest)
+					return
+				}
+				cts = append(cts, c)
+				// each item on its own: binds exactly its own associated data
+				if !checkCT(h, c, "batch item decrypted singly", -1, -1) {
+					return
+				}
+			}
+			// batch decrypt: every item with its own inputs, plus one item whose associated data is withheld
+			var ditems []any
+			withheld := -1
+			for j, c := range bc {
+				it := map[string]any{"ciphertext": c.ct}
+				if c.ctx != nil {
+					it["context"] = b64(c.ctx)
+				}
+				if c.aad != nil {
+					if withheld < 0 && j > 0 {
+						withheld = j // sent WITHOUT its associated data: must fail
+					} else {
+						it["associated_data"] = b64(c.aad)
+					}
+				}
+				ditems = append(ditems, it)
+			}
+			dresp, derr, _ := do(Req{Op: logical.UpdateOperation, Path: "transit/decrypt/" + k.name, Token: h.Root, Data: map[string]any{"batch_input": ditems}}, 0)
+			if dresp == nil {
+				note("batch decrypt %s -> %v", k.name, derr)
+				continue
+			}
+			var dres []map[string]any
+			if b, e := json.Marshal(dresp.Data["batch_results"]); e == nil {
+				json.Unmarshal(b, &dres)
+			}
+			if len(dres) != len(bc) {
+				continue
+			}
+			for j, c := range bc {
+				got, _ := base64.StdEncoding.DecodeString(fmt.Sprint(dres[j]["plaintext"]))
+				errStr, _ := dres[j]["error"].(string)
+				if j == withheld {
+					if errStr == "" && dres[j]["plaintext"] != nil {
+						viol("decrypt-ignored-associated-data", map[string]any{"key_type": k.typ, "batch": true}, "batch decrypt of %s: item %d was encrypted with associated data %q, decrypted without any: got %q", k.name, j, c.aad, got)
+						return
+					}
+					continue
+				}
+				if errStr != "" || string(got) != string(c.pt) {
+					viol("decrypt-refused", map[string]any{"phase": "batch decrypt", "key_type": k.typ}, "batch decrypt of %s: item %d (associated data %q) gave error %q / plaintext %q, want %q", k.name, j, c.aad, errStr, got, c.pt)
+					return
+				}
+			}
 		case op <= 4 && k.canEncrypt: // encrypt
 			pt := newPT()
 			data := map[string]any{"plaintext": b64(pt)}
